@@ -219,7 +219,9 @@ def _run_main(prog, tier):
         sl = s_.targets[0].slice
         row = U(sl.elts[0]) if isinstance(sl, ast.Tuple) else U(sl)
         rows.setdefault(row, []).append(s_)
-    TAKE = ["take_along_axis(_s, {i}, 0).squeeze()", "take_along_axis(_s, {i}, axis=0).squeeze()",
+    TAKE = ["take_along_axis(_s, {i}, 0).ravel()", "take_along_axis(_s, {i}, axis=0).ravel()", "take_along_axis(_s, {i}, 0).flatten()",
+            "take_along_axis(_s, {i}, axis=0).flatten()", "take_along_axis(_s, {i}, 0).reshape(-1)", "take_along_axis(_s, {i}, axis=0).reshape(-1)",
+            "take_along_axis(_s, {i}, 0).squeeze()", "take_along_axis(_s, {i}, axis=0).squeeze()",
             "take_along_axis(_s, {i}, 0)[0]", "take_along_axis(_s, {i}, axis=0)[0]", "take_along_axis(_s, {i}, 0)", "take_along_axis(_s, {i}, axis=0)"]
     WIDTHS = ["expand_dims((_s[_L:, :] - _s[:_n - _L, :]).argmin(axis=0), axis=0)", "expand_dims((_s[_L:] - _s[:_n - _L]).argmin(axis=0), axis=0)",
               "expand_dims((_s[_L:, :] - _s[:_n - _L, :]).argmin(axis=0), 0)", "expand_dims((_s[_L:] - _s[:_n - _L]).argmin(axis=0), 0)",
@@ -294,6 +296,10 @@ def _run_main(prog, tier):
             if f == f"{sname}.sort":
                 ax = get_kw(c, "axis", 0)
                 checks.append(("sort", c, ax is not None and U(ax) == "0"))
+            elif f == "sort" and c.args and U(c.args[0]) == sname:
+                # the function form, re-bound to the same name: `s = sort(s, axis=0)`
+                ax = get_kw(c, "axis", 1)
+                checks.append(("sort", c, ax is not None and U(ax) == "0"))
             elif isinstance(c.func, ast.Attribute) and c.func.attr == "argmin":
                 ax = get_kw(c, "axis", 0)
                 checks.append(("argmin", c, ax is not None and U(ax) == "0"))
@@ -306,6 +312,8 @@ def _run_main(prog, tier):
                              REL, c.lineno))
     # the sort is unconditional (a top-level statement of the function)
     sort_stmts = [st for st in fn.body if isinstance(st, ast.Expr) and isinstance(st.value, ast.Call) and U(st.value.func) == f"{sname}.sort"]
+    sort_stmts += [st for st in fn.body if isinstance(st, ast.Assign) and len(st.targets) == 1 and U(st.targets[0]) == sname
+                   and isinstance(st.value, ast.Call) and U(st.value.func) == "sort" and st.value.args and U(st.value.args[0]) == sname]
     n_sorts = len([1 for n_, c, ok in checks if n_ == "sort"])
     obs.append(struct_ob("axis-discipline", construct + "[sort-unconditional]", len(sort_stmts) == 1 and n_sorts == 1,
                          "the copy must be sorted unconditionally before the windows are formed (a sortedness test on the raw values "
